@@ -12,9 +12,18 @@ class LineTrigger:
 		self.action = action   # 'interrupt' | 'kill'
 		self.fired = False
 		self.where = None
+		self._lastline = {}
 
 	def _local(self, frame, event, arg):
-		if event == 'line':
+		# CPython 3.12 emits a second 'line' event when a frame resumes on the same line after a call returns -
+		# except the first time a code object is traced in a process. Counting a line once per visit (consecutive
+		# events of one frame on one line collapse) makes the count a function of the code alone.
+		if event == 'return':
+			self._lastline.pop(id(frame), None)
+		elif event == 'line':
+			if self._lastline.get(id(frame)) == frame.f_lineno:
+				return self._local
+			self._lastline[id(frame)] = frame.f_lineno
 			self.n += 1
 			if self.n == self.k and not self.fired:
 				self.fired = True
